@@ -165,6 +165,7 @@ type Controller struct {
 	chans      map[uintptr]*ChanState
 	keepAlive  []any
 	captured   map[string][]any
+	watchers   map[any]func(v any)
 	noBranch   bool
 	lastThread *Thread
 	// StateHook, when set, contributes harness-observable state to the state signature.
@@ -544,11 +545,15 @@ func GoNamed(name string, f func()) {
 
 // Config of an exploration.
 type Config struct {
-	MaxSteps  int  // per execution (default 20000)
-	Bound     int  // maximum number of preemptions (-1: unbounded)
-	Trace     bool // record an operation trace per execution (slow)
-	MaxExecs  int  // cap on executions (0: none); hitting it makes the run non-exhaustive
-	Workers   int  // ExploreP: parallel workers
+	MaxSteps int  // per execution (default 20000)
+	Bound    int  // maximum number of preemptions (-1: unbounded)
+	Trace    bool // record an operation trace per execution (slow)
+	MaxExecs int  // cap on executions (0: none); hitting it makes the run non-exhaustive
+	Workers  int  // ExploreP: parallel workers
+	// CountFree selects deviation (delay) bounding: EVERY departure from the default schedule (keep running,
+	// else lowest thread id) costs one unit of Bound, also where the running thread blocked or ended.
+	// With it false Bound counts preemptions only (switches at block/exit are free), as in CHESS.
+	CountFree bool
 	StopAfter func() bool
 }
 
@@ -665,7 +670,7 @@ func Explore(cfg Config, body func(), check func(r *Result) bool) (st Stats) {
 			if i >= len(it.prefix) {
 				for alt := p.nEnabled - 1; alt >= 1; alt-- {
 					c := cost
-					if p.curEnabled {
+					if p.curEnabled || cfg.CountFree {
 						c++
 					}
 					if cfg.Bound >= 0 && c > cfg.Bound {
@@ -677,7 +682,7 @@ func Explore(cfg Config, body func(), check func(r *Result) bool) (st Stats) {
 					stack = append(stack, item{prefix: np, sig: sigs[:i+1]})
 				}
 			}
-			if p.curEnabled && r.Choices[i] != 0 {
+			if (p.curEnabled || cfg.CountFree) && r.Choices[i] != 0 {
 				cost++
 			}
 		}
@@ -764,7 +769,7 @@ func ExploreP(cfg Config, newBody func() (body func(), obs any), check func(r *R
 						if i >= len(it.prefix) {
 							for alt := p.nEnabled - 1; alt >= 1; alt-- {
 								c := cost
-								if p.curEnabled {
+								if p.curEnabled || cfg.CountFree {
 									c++
 								}
 								if cfg.Bound >= 0 && c > cfg.Bound {
@@ -776,7 +781,7 @@ func ExploreP(cfg Config, newBody func() (body func(), obs any), check func(r *R
 								push = append(push, item{prefix: np, sig: sigs[:i+1]})
 							}
 						}
-						if p.curEnabled && r.Choices[i] != 0 {
+						if (p.curEnabled || cfg.CountFree) && r.Choices[i] != 0 {
 							cost++
 						}
 					}
@@ -874,5 +879,25 @@ func WatchRunningInternal() {
 		if x != t && x.Name == "" && x.started && !x.done {
 			x.watch = true
 		}
+	}
+}
+
+// WatchStores registers f to be told every value stored (through the vatomic shim) into the atomic
+// object p during the calling thread's execution: the exact sequence of stores, in schedule order.
+func WatchStores(p any, f func(v any)) {
+	t := Cur()
+	if t == nil {
+		return
+	}
+	if t.c.watchers == nil {
+		t.c.watchers = map[any]func(v any){}
+	}
+	t.c.watchers[p] = f
+}
+
+// NotifyStore is called by the vatomic shim after a store.
+func (c *Controller) NotifyStore(p any, v any) {
+	if f, ok := c.watchers[p]; ok {
+		f(v)
 	}
 }
